@@ -67,7 +67,7 @@ def main():
         ran.append("patched: python demo.py -> exit %d" % rc1)
         confirmed = (rc0 == 0 and rc1 != 0 and rct == 0 and "63 passed" in tail)
         t = time.time()
-        rcc, oc, ec = sh([PY, os.path.join(HERE, "check.py"), prop, "--tier", tier, "--no-evidence"] + (["--first"] if fast else []),
+        rcc, oc, ec = sh([PY, os.path.join(HERE, "check.py"), prop, "--tier", tier, "--no-evidence"] + (["--first"] if (fast or os.environ.get("EVAL_FIRST") == "1") else []),
                          env=dict(os.environ, VERIF_REPO=wt))
         secs = time.time() - t
         viol = [l for l in oc.splitlines() if l.startswith("VIOLATION")]
